@@ -1,0 +1,34 @@
+//go:build verif
+
+// Contracts for package metadata, checked by /verif/govc (comment-only file).
+package metadata
+
+//@ -- The Akamai-style HTTP/2 fingerprint 'S|WU|P|PS' as a mathematical function of the captured frames.
+//@ pure func settingsStr(ss seq[Setting], n int) string = ite(n <= 0, "", ite(n == 1, "", settingsStr(ss, n-1) ++ ";") ++ dec(ss[n-1].Id) ++ ":" ++ dec(ss[n-1].Val))
+//@ pure func prioStr(ps seq[Priority], n int) string = ite(n <= 0, "", ite(n == 1, "", prioStr(ps, n-1) ++ ",") ++ dec(ps[n-1].StreamId) ++ ":" ++ ite(ps[n-1].Exclusive, "1:", "0:") ++ dec(ps[n-1].StreamDep) ++ ":" ++ dec(ps[n-1].Weight + 1))
+//@ pure func isPseudo(h HeaderField) bool = len(h.Name) >= 2 && h.Name[0] == ':'
+//@ pure func pseudoStr(hs seq[HeaderField], n int) string = ite(n <= 0, "", ite(isPseudo(hs[n-1]), ite(len(pseudoStr(hs, n-1)) > 0, pseudoStr(hs, n-1) ++ ",", "") ++ unit(hs[n-1].Name[1]), pseudoStr(hs, n-1)))
+//@ pure func nprio(f *HTTP2FingerprintingFrames, max uint) int = min(len(f.Priorities), max)
+//@ pure func pPart(f *HTTP2FingerprintingFrames, max uint) string = ite(nprio(f, max) == 0, "0", prioStr(f.Priorities, nprio(f, max)))
+//@ pure func h2prefix(f *HTTP2FingerprintingFrames, max uint) string = settingsStr(f.Settings, len(f.Settings)) ++ "|" ++ fmtd("02", f.WindowUpdateIncrement) ++ "|" ++ pPart(f, max) ++ "|"
+//@ pure func h2fp(f *HTTP2FingerprintingFrames, max uint) string = h2prefix(f, max) ++ pseudoStr(f.Headers, len(f.Headers))
+
+//@ func (*HTTP2FingerprintingFrames).Marshal :: f, maxPriorityFrames -> result
+//@   props C03,C10
+//@   requires f != nil
+//@   assigns nothing
+//@   ensures [C03:format] result == h2fp(f, maxPriorityFrames)
+//@   loop 1 invariant -1 <= rangeindex && rangeindex < len(f.Settings) || (rangeindex == -1 && len(f.Settings) == 0)
+//@   loop 1 invariant [C03:settings] buf.view == settingsStr(f.Settings, rangeindex+1)
+//@   loop 2 invariant -1 <= rangeindex && rangeindex < nprio(f, maxPriorityFrames)
+//@   loop 2 invariant nprio(f, maxPriorityFrames) > 0
+//@   loop 2 invariant [C03:priorities] buf.view == settingsStr(f.Settings, len(f.Settings)) ++ "|" ++ fmtd("02", f.WindowUpdateIncrement) ++ "|" ++ prioStr(f.Priorities, rangeindex+1)
+//@   loop 3 invariant -1 <= rangeindex && rangeindex < len(f.Headers) || (rangeindex == -1 && len(f.Headers) == 0)
+//@   loop 3 invariant [C03:pseudo] buf.view == h2prefix(f, maxPriorityFrames) ++ pseudoStr(f.Headers, rangeindex+1)
+//@   loop 3 invariant wrotePseudoHeader == (len(pseudoStr(f.Headers, rangeindex+1)) > 0)
+
+//@ func (*HTTP2FingerprintingFrames).String :: f -> result
+//@   props C03
+//@   requires f != nil
+//@   assigns nothing
+//@   ensures result == h2fp(f, 18446744073709551615)
